@@ -4,6 +4,7 @@
   unchanged tree, see `not_isolated_hides_everything`).
 -/
 import Djc.Proofs.Render
+import Djc.Proofs.Plain
 import Djc.Spec.Render
 namespace Djc.Props.C03
 open Djc.Tpl Djc.Render Djc.Proofs.Render
@@ -117,6 +118,17 @@ theorem not_isolated_hides_everything :
   have := h [[], forLayer [[]] "x".toList 0 (.str "leak".toList)] "x".toList (by decide) (by decide) (by decide) (by decide)
   revert this
   decide
+
+/-- **Plain template code reads nothing but its context** (all fuels, pages, contexts, worlds): what a page without
+library tags prints does not depend on the registries of the world it is rendered in — two worlds that agree on the
+step counter give the same tokens or the same error.  With `isolated_copy_hides` this is the "sees only what it was
+given" clause for the code *between* the library tags of a component template: all such code sees is the `Ctx`. -/
+theorem plain_output_independent_of_world (env : Env) (fuel : Nat) (page : List Node) (ctx : Ctx) (w w' : World)
+    (hp : Djc.Proofs.Plain.plainL page = true) (hc : Djc.Proofs.Plain.ctxFree ctx = true) (hs : w.steps = w'.steps) :
+    ((renderNodes env fuel page ctx).run.run w).1 = ((renderNodes env fuel page ctx).run.run w').1 := by
+  rw [(Djc.Proofs.Plain.model_plain env fuel).1 page ctx w hp hc,
+      (Djc.Proofs.Plain.model_plain env fuel).1 page ctx w' hp hc, hs]
+  rfl
 
 /-- The property at full strength for the model of the code: in isolated mode the tokens of a page
 holding one component tag with literal arguments do not depend on the page's variables.  OPEN, and
